@@ -148,10 +148,9 @@ def grammar_text(rules, directives=(), keywords=()):
         out += f'@@{name} :: {val}\n'
     if directives:
         out += '\n'
-    for kw in keywords:
-        out += f'@@keyword :: {kw if kw.isalnum() else q(kw)}\n'
     if keywords:
-        out += '\n'
+        # the parenthesised form: the bare form swallows a following rule name when the rule has [params]
+        out += '@@keyword :: (' + ' '.join(kw if kw.isalnum() else q(kw) for kw in keywords) + ')\n\n'
     return out + '\n\n'.join(rule_text(r) for r in rules) + '\n'
 
 
